@@ -315,7 +315,9 @@ def show(v):
 
 class Analyzer:
     def __init__(self, prog, f, entry_state=None, call_summary=None, field_summary=None, global_tables=True,
-                 havoc_fields_on_call=True, load_hook=None, diffs=(), ghosts=None, preserve_fields=()):
+                 havoc_fields_on_call=True, load_hook=None, diffs=(), ghosts=None, preserve_fields=(), start=None):
+        # start: analyse the region reachable from this block only (entry_state describes its IN)
+        self.start = start
         # preserve_fields: field names whose cells survive calls (the caller proves separately that no callee writes them)
         self.preserve_fields = set(preserve_fields)
         # ghosts: name -> {varkey: coef}: tracks  sum(coef*var) - (its value at entry)  as a linear
@@ -1351,17 +1353,18 @@ class Analyzer:
     # -- fixpoint
     def _solve(self):
         cf = self.cf
-        order = cf._rpo(cf.entry, cf.succ)
+        start = self.start if self.start is not None else cf.entry
+        order = cf._rpo(start, cf.succ)
         pos = {b: i for i, b in enumerate(order)}
         back_targets = set()
         for b in order:
             for s in cf.succ[b]:
                 if s in pos and pos[s] <= pos[b]:
                     back_targets.add(s)
-        IN = {cf.entry: dict(self.entry_state)}
+        IN = {start: dict(self.entry_state)}
         visits = {}
-        work = [cf.entry]
-        inwork = {cf.entry}
+        work = [start]
+        inwork = {start}
         steps = 0
         self.edge_out = {}
         while work and steps < 20000:
@@ -1412,7 +1415,7 @@ class Analyzer:
         # one narrowing pass: recompute INs from predecessors' edge outputs without widening
         for _ in range(2):
             for b in order:
-                if b == cf.entry:
+                if b == start:
                     continue
                 ins = [self.edge_out.get((p, b)) for p in cf.pred[b]]
                 ins = [x for x in ins if x is not None]
